@@ -2114,12 +2114,22 @@ class TypeBlocks(ContainerOperand):
                 return b[row_key, column]
             return TypeBlocks.from_blocks(b[row_key, column])
 
+        # if no block is selected the shape reference supplies the row count: it must be the count of the selected rows
+        if row_key is None or isinstance(row_key, INT_TYPES):
+            shape_reference = self._shape
+        elif row_key.__class__ is slice:
+            shape_reference = (len(range(*row_key.indices(self._shape[0]))), self._shape[1])
+        elif row_key.__class__ is np.ndarray and row_key.dtype == DTYPE_BOOL:
+            shape_reference = (int(row_key.sum()), self._shape[1])
+        else:
+            shape_reference = (len(row_key), self._shape[1])
+
         # pass a generator to from_block; will return a TypeBlocks or a single element
         return self.from_blocks(
                 self._slice_blocks(
                         row_key=row_key,
                         column_key=column_key),
-                shape_reference=self._shape
+                shape_reference=shape_reference
                 )
 
     def _extract_iloc(self,
@@ -2260,15 +2270,30 @@ class TypeBlocks(ContainerOperand):
         Args:
             key: if a single value, treated as a row key; if a tuple, treated as a pair of row, column keys.
         '''
+        # if every column is dropped the shape reference supplies the row count: it must be the count of the rows kept
+        row_key = key[0] if isinstance(key, tuple) else key
+        rows = self._shape[0]
+        if row_key is None:
+            pass
+        elif isinstance(row_key, INT_TYPES):
+            rows -= 1
+        elif row_key.__class__ is slice:
+            rows -= len(range(*row_key.indices(rows)))
+        elif row_key.__class__ is np.ndarray and row_key.dtype == DTYPE_BOOL:
+            rows -= int(row_key.sum())
+        else:
+            rows -= len({k if k >= 0 else k + rows for k in row_key})
+        shape_reference = (rows, self._shape[1])
+
         if isinstance(key, tuple):
             # column dropping can leed to a TB with generator that yields nothing;
             return TypeBlocks.from_blocks(
                     self._drop_blocks(*key),
-                    shape_reference=self._shape
+                    shape_reference=shape_reference
                     )
         return TypeBlocks.from_blocks(
                 self._drop_blocks(row_key=key),
-                shape_reference=self._shape
+                shape_reference=shape_reference
                 )
 
 
